@@ -134,10 +134,12 @@ func jsxRunAll(codes []string) ([]string, bool) {
 	for k, c := range codes {
 		fmt.Fprintf(&sb, "__run(%d, function (require, module, exports) {\n%s\n});\n", k, c)
 	}
-	out, err := W.Batch([]string{sb.String()}, jsxPrelude+jsxRunHelper)
-	if err != nil {
+	// (one script of many programs: give it a generous limit, the machine may be busy)
+	resp, err := W.Call(noderun.Req{Kind: "batch", Codes: []string{sb.String()}, Prelude: jsxPrelude + jsxRunHelper, TimeoutMs: 15000})
+	if err != nil || len(resp.Results) != 1 {
 		return nil, false
 	}
+	out := resp.Results
 	if traces, ok := splitRunTrace(out[0], len(codes)); ok {
 		return traces, true
 	}
@@ -1062,7 +1064,7 @@ func uni(rt *rapid.T, label string, n int) int {
 }
 
 func pick(rt *rapid.T, label string, xs []string) string { return xs[uni(rt, label, len(xs))] }
-func pct(rt *rapid.T, label string, p int) bool           { return uni(rt, label, 100) < p }
+func pct(rt *rapid.T, label string, p int) bool          { return uni(rt, label, 100) < p }
 
 type jgen struct {
 	rt     *rapid.T
